@@ -37,7 +37,10 @@ type World struct {
 	Files    map[string]bool // source files of functions executed (for evidence)
 	fmu      sync.Mutex
 	Funcs    map[string]bool
-	Tier     int // 0 quick, 1 thorough
+	fnKnown  map[*ssa.Function]bool
+	// ModulePath: import-path prefix of the module under test
+	ModulePath string
+	Tier       int // 0 quick, 1 thorough
 }
 
 type nilIntercept struct{}
@@ -75,7 +78,7 @@ func Load(dir string, patterns []string, overlay map[string][]byte, tags string)
 	}
 	prog, spkgs := ssautil.AllPackages(pkgs, ssa.InstantiateGenerics|ssa.SanityCheckFunctions&0)
 	prog.Build()
-	w := &World{Prog: prog, Pkgs: pkgs, SSAPkgs: map[string]*ssa.Package{}, RepoDir: dir, initOK: map[string]bool{}, Funcs: map[string]bool{}}
+	w := &World{Prog: prog, Pkgs: pkgs, SSAPkgs: map[string]*ssa.Package{}, RepoDir: dir, initOK: map[string]bool{}, Funcs: map[string]bool{}, fnKnown: map[*ssa.Function]bool{}, ModulePath: "github.com/arloliu/go-secs/"}
 	for i, p := range pkgs {
 		if spkgs[i] != nil {
 			w.SSAPkgs[p.PkgPath] = spkgs[i]
@@ -171,10 +174,26 @@ func (w *World) FindFunc(pkgPath, name string) *ssa.Function {
 	return p.Func(name)
 }
 
-func (w *World) noteFunc(fn *ssa.Function) {
+// noteFuncs records the functions of the module under test (harness overlay files excluded) whose
+// SSA bodies a path executed.
+func (w *World) noteFuncs(seen map[*ssa.Function]bool) {
 	w.fmu.Lock()
-	w.Funcs[fn.String()] = true
-	w.fmu.Unlock()
+	defer w.fmu.Unlock()
+	for fn := range seen {
+		if w.fnKnown[fn] {
+			continue
+		}
+		w.fnKnown[fn] = true
+		if fn.Pkg == nil || fn.Pkg.Pkg == nil || !strings.HasPrefix(fn.Pkg.Pkg.Path(), w.ModulePath) {
+			continue
+		}
+		if pos := fn.Pos(); pos.IsValid() {
+			if strings.Contains(filepath.Base(w.Prog.Fset.Position(pos).Filename), "zz_verif_") {
+				continue
+			}
+		}
+		w.Funcs[fn.String()] = true
+	}
 }
 
 // RepoFuncs returns the executed functions that belong to the module under test (not harness
